@@ -112,7 +112,8 @@ CLAIMED = {
         "redeemCheck_ok_spec + redeem_token_implies (a token is issued for a code only if the code is in the store — i.e. issued here and unconsumed —, belongs to the "
         "authenticated client, is unexpired, the redirect URI is identical when one was sent, and PKCE is satisfied; the token carries the approving user and the "
         "code is consumed), code_single_use (INVARIANT over ALL operation sequences of any length: no two tokens for one code, a redeemed code is gone), "
-        "poll_token_implies and poll_no_token_unless_approved (device flow). PKCE patterns are regenerated from challenge.py. Correspondence: random walks and directed "
+        "poll_token_implies and poll_no_token_unless_approved (device flow). PKCE patterns are regenerated from challenge.py and characterised for every string: "
+        "verifier_accepted_iff_rfc7636 / challenge_accepted_iff_rfc7636 (Props/C06Pkce.lean). Correspondence: random walks and directed "
         "histories (boundary verifiers 42/43/128/129 chars, trailing newline, replay, other client, redirect present/absent, expiry) against the real provider; every "
         "step output and the final store compared; history oracle written from the statement.",
    note="Trusted: Lean kernel; reference integrator (memserver.py on the repo's sqla_oauth2 mixins); client authentication inside histories is abstracted to "
@@ -145,7 +146,8 @@ CLAIMED = {
         "identification per grant, validate_authorization_redirect_uri, response-type / scope / PKCE / nonce / openid / prompt checks in code order, "
         "OAuth2Error redirect rule, create_response_mode_response incl. form_post, both entry points): redirect_only_to_registered and "
         "consent_redirect_only_to_registered (every 302 / form_post target is a URI registered by the identified existing client: the requested one or the "
-        "default — for ALL requests, client tables, grant registrations, decisions), state_echoed_once_unchanged, credential_only_if_approved. "
+        "default — for ALL requests, client tables, grant registrations, decisions), state_echoed_once_unchanged, credential_only_if_approved; the same three with the RFC 9207 "
+        "issuer extension registered, plus iss_exactly_once (Props/C05Issuer.lean). "
         "registered_query_preserved is C15's add_params_preserves_existing. Correspondence: mostly-valid + mutated + fully random request streams (GET consent and "
         "POST decision, parameter placement query/form/split, duplicated parameters) against the real core provider with all five authorization grants; "
         "direct oracle on Location / form action.",
@@ -182,7 +184,8 @@ CLAIMED = {
         "family and curve check, check_key_op): verified_implies_policy (a key reaches signature verification only if alg is named, registered, allowed, "
         "not none, same family/curve, the designated key, use/key_ops permit, every crit extension understood and present), none_rejected, "
         "wrong_curve_rejected, wrong_family_rejected, kid_selects_designated_key, unknown_kid_is_error, missing_kid_many_keys_is_error, "
-        "use_keyops_honoured, crit_unknown_rejected, any_crit_rejected_by_default, and asym_text_never_hmac_key over the unsafe-prefix and marker "
+        "use_keyops_honoured, crit_unknown_rejected, any_crit_rejected_by_default, resolver_key_is_used / resolver_without_key_never_verifies / "
+        "embedded_jwk_only_without_designated_key (callable keys and the token's own jwk header), and asym_text_never_hmac_key over the unsafe-prefix and marker "
         "lists REGENERATED from oct_key.py on every run (hypothesis PemNeedsMarker about cryptography's loaders). Correspondence: alg value × allow-list × "
         "key kind/form × kid × use/key_ops × crit matrix against real deserialize_compact / jwt.decode with tokens signed by an independent signer; "
         "confusion cells: every PEM/SSH/certificate text form (with whitespace, BOM, comment prefixes) offered as HMAC secret, incl. an end-to-end forgery attempt.",
